@@ -1,10 +1,12 @@
 package main
 
 // Quantifier pre-processing for the queries the engine emits: Skolemisation of
-// existentials in positive position and ground instantiation of universals over
-// the index terms that occur in the query (the array-property-fragment recipe of
-// Bradley/Manna). The transformations only weaken assertions of a refutation
-// query (or keep them equivalent), so "unsat" remains a proof.
+// existentials in positive position and ground instantiation of universals by
+// matching the array reads in their bodies against the array reads that occur
+// in the rest of the query (E-matching on select patterns, done here because
+// the solvers' own matching is defeated by bit-vector address arithmetic and by
+// simplifications such as p+0 = p). The transformations only weaken assertions
+// of a refutation query (or keep them equivalent), so "unsat" remains a proof.
 
 import (
 	"fmt"
@@ -15,19 +17,31 @@ import (
 type sx struct {
 	atom string
 	list []*sx
+	str  string // cached rendering
 }
 
 func (n *sx) isAtom() bool { return n.list == nil && n.atom != "" }
 
 func (n *sx) String() string {
+	if n.list == nil {
+		return n.atom
+	}
+	if n.str != "" {
+		return n.str
+	}
 	var b strings.Builder
 	n.write(&b)
-	return b.String()
+	n.str = b.String()
+	return n.str
 }
 
 func (n *sx) write(b *strings.Builder) {
 	if n.list == nil {
 		b.WriteString(n.atom)
+		return
+	}
+	if n.str != "" {
+		b.WriteString(n.str)
 		return
 	}
 	b.WriteByte('(')
@@ -129,22 +143,293 @@ func hasQuant(n *sx) bool {
 	return false
 }
 
+func hasBound(n *sx) bool {
+	if n.list == nil {
+		return strings.Contains(n.atom, "?")
+	}
+	for _, c := range n.list {
+		if hasBound(c) {
+			return true
+		}
+	}
+	return false
+}
+
 type instCtx struct {
-	c        *Ctx
-	skolems  []decl
-	cands    []*sx // candidate instantiation terms of sort BV64
-	candSet  map[string]bool
-	dropQ    bool // lite mode: drop the quantifier after instantiating
-	nSk      int
-	maxInst  int
-	instDone int
+	c       *Ctx
+	defs    map[string]*sx
+	skolems []decl
+	dropQ   bool // lite mode: drop the quantifier after instantiating
+	nSk     int
+	maxInst int
+	// ground array reads: canonical array -> canonical index -> index term
+	reads    map[string]map[string]*sx
+	fallback []*sx // Skolem constants and zero: used for variables without a read pattern
+	fbSet    map[string]bool
+	canonMem map[*sx]string
+	nReads   int
 }
 
 const bv64Sort = "(_ BitVec 64)"
 
+// canon renders a term with array-valued and index definitions expanded, so
+// that syntactically different spellings of the same term compare equal.
+func (ic *instCtx) canon(n *sx) string {
+	if s, ok := ic.canonMem[n]; ok {
+		return s
+	}
+	var b strings.Builder
+	ic.canonWrite(n, &b, 0)
+	s := b.String()
+	ic.canonMem[n] = s
+	return s
+}
+
+func (ic *instCtx) canonWrite(n *sx, b *strings.Builder, depth int) {
+	if n.list == nil {
+		if d, ok := ic.defs[n.atom]; ok && depth < 40 {
+			ic.canonWrite(d, b, depth+1)
+			return
+		}
+		b.WriteString(n.atom)
+		return
+	}
+	b.WriteByte('(')
+	for i, c := range n.list {
+		if i > 0 {
+			b.WriteByte(' ')
+		}
+		ic.canonWrite(c, b, depth)
+	}
+	b.WriteByte(')')
+}
+
+func (ic *instCtx) resolve(n *sx) *sx {
+	for i := 0; i < 40 && n.isAtom(); i++ {
+		d, ok := ic.defs[n.atom]
+		if !ok {
+			break
+		}
+		n = d
+	}
+	return n
+}
+
+// isOuterMem reports whether an array term is a region-indexed (outer) memory:
+// its selects are indexed by region identifiers, not by offsets.
+func (ic *instCtx) isOuterMem(n *sx, depth int) bool {
+	if depth > 60 {
+		return false
+	}
+	if n.isAtom() {
+		if strings.HasPrefix(n.atom, "mem$") {
+			return true
+		}
+		if d, ok := ic.defs[n.atom]; ok {
+			return ic.isOuterMem(d, depth+1)
+		}
+		return false
+	}
+	switch n.head() {
+	case "store":
+		if len(n.list) == 4 {
+			return ic.isOuterMem(n.list[1], depth+1)
+		}
+	case "ite":
+		if len(n.list) == 4 {
+			return ic.isOuterMem(n.list[2], depth+1)
+		}
+	}
+	return false
+}
+
+// addRead records a ground read arr[idx], and the reads it implies through
+// store and ite (read-over-write).
+func (ic *instCtx) addRead(arr, idx *sx, depth int) {
+	if depth > 12 || ic.nReads > 4000 {
+		return
+	}
+	key := ic.canon(arr)
+	m := ic.reads[key]
+	if m == nil {
+		m = map[string]*sx{}
+		ic.reads[key] = m
+	}
+	ik := ic.canon(idx)
+	if _, ok := m[ik]; ok {
+		return
+	}
+	m[ik] = idx
+	ic.nReads++
+	r := ic.resolve(arr)
+	switch r.head() {
+	case "store":
+		if len(r.list) == 4 {
+			ic.addRead(r.list[1], idx, depth+1)
+		}
+	case "ite":
+		if len(r.list) == 4 {
+			ic.addRead(r.list[2], idx, depth+1)
+			ic.addRead(r.list[3], idx, depth+1)
+		}
+	case "select":
+		// inner array obtained from an outer memory: look through stores on the outer memory
+		if len(r.list) == 3 {
+			outer := ic.resolve(r.list[1])
+			switch outer.head() {
+			case "store":
+				if len(outer.list) == 4 {
+					// (select (store M r A) r') is A if r = r', (select M r') otherwise: both are candidates
+					ic.addRead(outer.list[3], idx, depth+1)
+					ic.addRead(&sx{list: []*sx{{atom: "select"}, outer.list[1], r.list[2]}}, idx, depth+1)
+				}
+			case "ite":
+				if len(outer.list) == 4 {
+					ic.addRead(&sx{list: []*sx{{atom: "select"}, outer.list[2], r.list[2]}}, idx, depth+1)
+					ic.addRead(&sx{list: []*sx{{atom: "select"}, outer.list[3], r.list[2]}}, idx, depth+1)
+				}
+			}
+		}
+	}
+}
+
+// collectReads finds the ground reads of a term (bound variables excluded).
+func (ic *instCtx) collectReads(n *sx, seen map[string]bool) {
+	if n.list == nil {
+		if d, ok := ic.defs[n.atom]; ok && !seen[n.atom] {
+			seen[n.atom] = true
+			ic.collectReads(d, seen)
+		}
+		return
+	}
+	if isQuant(n) {
+		return // reads under a binder are patterns, not ground terms
+	}
+	if n.head() == "select" && len(n.list) == 3 && !ic.isOuterMem(n.list[1], 0) {
+		if !hasBound(n.list[1]) && !hasBound(n.list[2]) {
+			ic.addRead(n.list[1], n.list[2], 0)
+		}
+	}
+	for _, c := range n.list {
+		ic.collectReads(c, seen)
+	}
+}
+
+type pattern struct {
+	arr string // canonical array
+	off string // canonical offset for (bvadd OFF v); "" for a direct index v
+}
+
+// patterns lists the read patterns of variable v in a quantifier body.
+func (ic *instCtx) patterns(body *sx, v string, out *[]pattern) {
+	if body.list == nil {
+		return
+	}
+	if body.head() == "select" && len(body.list) == 3 && !ic.isOuterMem(body.list[1], 0) && !hasBound(body.list[1]) {
+		idx := body.list[2]
+		if idx.isAtom() && idx.atom == v {
+			*out = append(*out, pattern{arr: ic.canon(body.list[1])})
+		} else if idx.head() == "bvadd" && len(idx.list) == 3 {
+			a, b := idx.list[1], idx.list[2]
+			if b.isAtom() && b.atom == v && !hasBound(a) {
+				*out = append(*out, pattern{arr: ic.canon(body.list[1]), off: ic.canon(a)})
+			} else if a.isAtom() && a.atom == v && !hasBound(b) {
+				*out = append(*out, pattern{arr: ic.canon(body.list[1]), off: ic.canon(b)})
+			}
+		}
+	}
+	for _, c := range body.list {
+		ic.patterns(c, v, out)
+	}
+}
+
+// equated lists ground terms T such that the body contains (= v T) or (= T v).
+func (ic *instCtx) equated(body *sx, v string, out *[]*sx) {
+	if body.list == nil {
+		return
+	}
+	if body.head() == "=" && len(body.list) == 3 {
+		a, b := body.list[1], body.list[2]
+		if a.isAtom() && a.atom == v && !hasBound(b) {
+			*out = append(*out, b)
+		} else if b.isAtom() && b.atom == v && !hasBound(a) {
+			*out = append(*out, a)
+		}
+	}
+	for _, c := range body.list {
+		ic.equated(c, v, out)
+	}
+}
+
+// candidates returns the instantiation terms for variable v of a quantifier.
+func (ic *instCtx) candidates(body *sx, v string) []*sx {
+	var pats []pattern
+	ic.patterns(body, v, &pats)
+	seen := map[string]bool{}
+	var out []*sx
+	add := func(t *sx) {
+		k := ic.canon(t)
+		if !seen[k] {
+			seen[k] = true
+			out = append(out, t)
+		}
+	}
+	for _, p := range pats {
+		m := ic.reads[p.arr]
+		keys := make([]string, 0, len(m))
+		for k := range m {
+			keys = append(keys, k)
+		}
+		sort.Strings(keys)
+		for _, k := range keys {
+			idx := m[k]
+			if p.off == "" {
+				add(idx)
+				continue
+			}
+			r := ic.resolve(idx)
+			if ic.canon(r) == p.off || k == p.off {
+				add(&sx{atom: "(_ bv0 64)"})
+				continue
+			}
+			if r.head() == "bvadd" && len(r.list) == 3 {
+				if ic.canon(r.list[1]) == p.off {
+					add(r.list[2])
+				} else if ic.canon(r.list[2]) == p.off {
+					add(r.list[1])
+				}
+			}
+		}
+	}
+	// terms the variable is equated with in the body are natural witnesses
+	var eqs []*sx
+	ic.equated(body, v, &eqs)
+	for _, t := range eqs {
+		add(t)
+	}
+	if len(pats) == 0 || len(out) == 0 {
+		for _, t := range ic.fallback {
+			add(t)
+		}
+	}
+	if len(out) > 24 {
+		out = out[:24]
+	}
+	return out
+}
+
+func (ic *instCtx) addFallback(t *sx) {
+	s := t.String()
+	if ic.fbSet[s] {
+		return
+	}
+	ic.fbSet[s] = true
+	ic.fallback = append(ic.fallback, t)
+}
+
 // process rewrites a formula in the given polarity (true = asserted positively).
-// underForall > 0 means bound variables of an enclosing universal are in scope
-// (no Skolemisation there).
+// bound > 0 means bound variables of an enclosing universal are in scope (no
+// Skolemisation there).
 func (ic *instCtx) process(n *sx, pos bool, bound int, instantiate bool) *sx {
 	if n.list == nil || !hasQuant(n) {
 		return n
@@ -169,6 +454,20 @@ func (ic *instCtx) process(n *sx, pos bool, bound int, instantiate bool) *sx {
 			}
 		}
 		return out
+	case "=":
+		// Bool equality with a quantified side: (= A B) is (A => B) and (B => A)
+		isBoolish := func(t *sx) bool {
+			switch t.head() {
+			case "forall", "exists", "and", "or", "not", "=>":
+				return true
+			}
+			return false
+		}
+		if len(n.list) == 3 && (isBoolish(n.list[1]) || isBoolish(n.list[2])) {
+			imp := func(a, b *sx) *sx { return &sx{list: []*sx{{atom: "=>"}, a, b}} }
+			both := &sx{list: []*sx{{atom: "and"}, imp(n.list[1], n.list[2]), imp(n.list[2], n.list[1])}}
+			return ic.process(both, pos, bound, instantiate)
+		}
 	case "ite":
 		if len(n.list) == 4 && !hasQuant(n.list[1]) {
 			return &sx{list: []*sx{n.list[0], n.list[1], ic.process(n.list[2], pos, bound, instantiate), ic.process(n.list[3], pos, bound, instantiate)}}
@@ -194,7 +493,7 @@ func (ic *instCtx) process(n *sx, pos bool, bound int, instantiate bool) *sx {
 				sk := &sx{atom: name}
 				m[v.list[0].atom] = sk
 				if v.list[1].String() == bv64Sort {
-					ic.addCand(sk)
+					ic.addFallback(sk)
 				}
 			}
 			return ic.process(body.subst(m), pos, bound, instantiate)
@@ -213,9 +512,8 @@ func (ic *instCtx) process(n *sx, pos bool, bound int, instantiate bool) *sx {
 			}
 		}
 		var insts []*sx
-		if len(bvVars) > 0 && len(ic.cands) > 0 && bound == 0 {
-			tuples := ic.tuples(len(bvVars))
-			for _, tp := range tuples {
+		if len(bvVars) > 0 && bound == 0 {
+			for _, tp := range ic.tuples(body, bvVars) {
 				m := map[string]*sx{}
 				for i, v := range bvVars {
 					m[v] = tp[i]
@@ -223,7 +521,6 @@ func (ic *instCtx) process(n *sx, pos bool, bound int, instantiate bool) *sx {
 				inst := body.subst(m)
 				if len(rest) > 0 {
 					inst = &sx{list: []*sx{n.list[0], {list: rest}, inst}}
-					// still quantified over the other variables: keep as is
 				} else {
 					inst = ic.process(inst, pos, bound, false)
 				}
@@ -254,47 +551,44 @@ func (ic *instCtx) process(n *sx, pos bool, bound int, instantiate bool) *sx {
 		}
 		return out
 	}
-	// quantifier under an operator of mixed polarity (=, xor, distinct, ...): leave
+	// quantifier under an operator of mixed polarity: leave (or weaken away in lite mode)
 	if ic.dropQ {
-		return ic.eraseMixed(n, pos)
+		if pos {
+			return &sx{atom: "true"}
+		}
+		return &sx{atom: "false"}
 	}
 	return n
 }
 
-// eraseMixed handles a subformula with quantifiers under a mixed-polarity
-// operator in lite mode: the whole subformula is weakened away.
-func (ic *instCtx) eraseMixed(n *sx, pos bool) *sx {
-	if pos {
-		return &sx{atom: "true"}
+// tuples enumerates the instantiation tuples for the bound variables of a body.
+func (ic *instCtx) tuples(body *sx, vars []string) [][]*sx {
+	k := len(vars)
+	sets := make([][]*sx, k)
+	for i, v := range vars {
+		sets[i] = ic.candidates(body, v)
+		if len(sets[i]) == 0 {
+			return nil
+		}
 	}
-	return &sx{atom: "false"}
-}
-
-func (ic *instCtx) addCand(t *sx) {
-	s := t.String()
-	if ic.candSet[s] {
-		return
-	}
-	ic.candSet[s] = true
-	ic.cands = append(ic.cands, t)
-}
-
-func (ic *instCtx) tuples(k int) [][]*sx {
-	n := len(ic.cands)
-	total := 1
-	for i := 0; i < k; i++ {
-		total *= n
-		if total > ic.maxInst {
+	for {
+		total := 1
+		for i := range sets {
+			total *= len(sets[i])
+		}
+		if total <= ic.maxInst {
 			break
 		}
-	}
-	cands := ic.cands
-	for total > ic.maxInst && len(cands) > 1 {
-		cands = cands[:len(cands)-1]
-		total = 1
-		for i := 0; i < k; i++ {
-			total *= len(cands)
+		big := 0
+		for i := range sets {
+			if len(sets[i]) > len(sets[big]) {
+				big = i
+			}
 		}
+		if len(sets[big]) <= 1 {
+			break
+		}
+		sets[big] = sets[big][:len(sets[big])-1]
 	}
 	var out [][]*sx
 	var rec func(cur []*sx)
@@ -303,7 +597,7 @@ func (ic *instCtx) tuples(k int) [][]*sx {
 			out = append(out, append([]*sx(nil), cur...))
 			return
 		}
-		for _, c := range cands {
+		for _, c := range sets[len(cur)] {
 			rec(append(cur, c))
 		}
 	}
@@ -311,54 +605,12 @@ func (ic *instCtx) tuples(k int) [][]*sx {
 	return out
 }
 
-// collectCands finds index terms: X in (select A (bvadd B X)) and (select A X),
-// resolving shared definitions; bound variables (containing '?') are skipped.
-func (ic *instCtx) collectCands(n *sx, defs map[string]*sx, seen map[string]bool) {
-	if n.list == nil {
-		if d, ok := defs[n.atom]; ok && !seen[n.atom] {
-			seen[n.atom] = true
-			ic.collectCands(d, defs, seen)
-		}
-		return
-	}
-	if n.head() == "select" && len(n.list) == 3 {
-		idx := n.list[2]
-		for idx.isAtom() {
-			d, ok := defs[idx.atom]
-			if !ok {
-				break
-			}
-			idx = d
-		}
-		if idx.head() == "bvadd" && len(idx.list) == 3 {
-			x := idx.list[2]
-			if !strings.Contains(x.String(), "?") {
-				ic.addCand(x)
-			}
-			// nested base: (bvadd (bvadd p a) b) also suggests a
-			b := idx.list[1]
-			for b.isAtom() {
-				d, ok := defs[b.atom]
-				if !ok {
-					break
-				}
-				b = d
-			}
-			if b.head() == "bvadd" && len(b.list) == 3 && !strings.Contains(b.list[2].String(), "?") {
-				ic.addCand(b.list[2])
-			}
-		}
-	}
-	for _, c := range n.list {
-		ic.collectCands(c, defs, seen)
-	}
-}
-
 // Preprocess turns the assertions of a refutation query into (possibly weaker)
 // assertions with Skolem constants and ground instances. Returned are the new
 // assertion strings and extra declarations.
 func (c *Ctx) Preprocess(asserts []string, usedDefs map[string]string, lite bool) ([]string, []decl) {
-	ic := &instCtx{c: c, candSet: map[string]bool{}, dropQ: lite, maxInst: 144}
+	ic := &instCtx{c: c, dropQ: lite, maxInst: 64, reads: map[string]map[string]*sx{}, fbSet: map[string]bool{},
+		canonMem: map[*sx]string{}, defs: map[string]*sx{}}
 	var trees []*sx
 	any := false
 	for _, a := range asserts {
@@ -371,38 +623,46 @@ func (c *Ctx) Preprocess(asserts []string, usedDefs map[string]string, lite bool
 	if !any {
 		return asserts, nil
 	}
-	defs := map[string]*sx{}
 	for name, body := range usedDefs {
-		defs[name] = parseSx(body)
+		ic.defs[name] = parseSx(body)
 	}
 	// pass 1: Skolemise
 	for i, t := range trees {
 		trees[i] = ic.process(t, true, 0, false)
 	}
-	// candidates
-	ic.addCand(&sx{atom: "(_ bv0 64)"})
-	seen := map[string]bool{}
-	for _, t := range trees {
-		ic.collectCands(t, defs, seen)
-	}
-	names := make([]string, 0, len(defs))
-	for n := range defs {
-		names = append(names, n)
-	}
-	sort.Strings(names)
-	for _, n := range names {
-		if !seen[n] {
-			seen[n] = true
-			ic.collectCands(defs[n], defs, seen)
+	ic.addFallback(&sx{atom: "(_ bv0 64)"})
+	base := trees
+	var result []*sx
+	// Instantiation rounds: instances contain new reads (e.g. the source of a copied
+	// byte) that are needed to instantiate the facts about older memories.
+	for round := 0; round < 3; round++ {
+		before := ic.nReads
+		seen := map[string]bool{}
+		src := base
+		if result != nil {
+			src = result
 		}
+		for _, t := range src {
+			ic.collectReadsGround(t, seen)
+		}
+		if round > 0 && ic.nReads == before {
+			break
+		}
+		next := make([]*sx, len(base))
+		for i, t := range base {
+			next[i] = ic.process(t, true, 0, true)
+		}
+		result = next
 	}
-	// pass 2: instantiate
-	for i, t := range trees {
-		trees[i] = ic.process(t, true, 0, true)
-	}
-	out := make([]string, len(trees))
-	for i, t := range trees {
+	out := make([]string, len(result))
+	for i, t := range result {
 		out[i] = t.String()
 	}
 	return out, ic.skolems
+}
+
+// collectReadsGround collects reads from the ground parts of an assertion: it
+// descends through connectives and into instances, but not under binders.
+func (ic *instCtx) collectReadsGround(n *sx, seen map[string]bool) {
+	ic.collectReads(n, seen)
 }
